@@ -26,7 +26,7 @@ RULE += (" " + 'Raw-spelling lane also has every word operator as the LAST segme
 ASSUMPTIONS = ["the parser defines which ASTs are in scope (only its image is judged)"]
 EXHAUSTIVE = "all operator pairs and triples (parsed from both renderings)"
 SHARDS = {"quick": 12, "thorough": 16}
-BUDGET_S = {"quick": 50, "thorough": 600}
+BUDGET_S = {"quick": 80, "thorough": 600}
 
 
 def render(node):
